@@ -344,9 +344,16 @@ Fixpoint p_ep_recycle (fr : list nat) (orph : list nat) : list nat :=
   | id :: tl => if length fr =? p_max_free then p_ep_recycle fr tl else p_ep_recycle (id :: fr) tl
   end.
 
+(* epoll_wait(m_epoll_fd, events, MAX_EVENTS, ...) returns at most MAX_EVENTS ready descriptors: the batch is
+   the first MAX_EVENTS entries of the kernel's ready list (any subset of that size is a legal answer; the harness
+   fixes it to the lowest / highest fds); the others are served by a later Poll(), the timers in between *)
+Definition p_max_events : nat := 10.  (* EPoller::MAX_EVENTS *)
+Definition p_ep_batch (c : p_cfg) (s : p_st) (ds : list nat) : list (nat * p_flags) :=
+  firstn p_max_events (p_ep_ready c s ds).
+
 Definition p_ep_poll (c : p_cfg) (s : p_st) (desc : bool) : p_st :=
   let ds := if desc then rev (seq 0 (length c)) else seq 0 (length c) in
-  match p_ep_ready c s ds with
+  match p_ep_batch c s ds with
   | [] => s                                          (* ready == 0: early return, no clean-up *)
   | evs =>
     let s := fold_left (p_ep_check c) evs s in
